@@ -16,7 +16,9 @@ def demo(wt, demo_src):
     d.write_text(demo_src.replace("/repo", str(wt)))
     env = dict(os.environ, PYTHONPATH=str(wt), SEED_REPO=str(wt), SUIT_REPO=str(wt), SUIT_ROOT=str(wt))
     try:
-        pr = subprocess.run(["/venv/bin/python", str(d), str(wt)], cwd=str(wt), env=env, capture_output=True, text=True, timeout=1200)
+        import re
+        takes_tree = re.search(r"=\s*sys\.argv\[1\]\s+if\s+len\(sys\.argv\)\s*>\s*1", demo_src) is not None
+        pr = subprocess.run(["/venv/bin/python", str(d)] + ([str(wt)] if takes_tree else []), cwd=str(wt), env=env, capture_output=True, text=True, timeout=1200)
         return pr.returncode
     except subprocess.TimeoutExpired:
         return 124
